@@ -14,6 +14,9 @@ Line-protocol front end of the C06 model.
   checker on the named effect program of `Model/Elements.lean` and the observable footprint of
   running it (the footprint does not depend on the input value or on the meaning of the array
   operations; the driver runs it on a fixed input with a fixed interpretation).
+* `C06 effects-loop NAME N` → the same for `(loopProgramByName NAME).unroll N`: the program with `N` rounds of its loop
+  (scales of a multi-scale coronagraph beyond the first, elements of a layered atmosphere); theorem
+  `shipped_loop_programs_safeAll`.
 * `C06 internal NAME` → `ok safe=B memo=a,b|- scratch=c|-` : verdict of `safeInternal` on the named
   program with element-internal cells and the attribute names of its memo cells / scratch buffers.
 * `C06 history NAME EV…` → `ok safe=B cells=c,… TOK…` : runs `Effects.runHistory` / `Effects.callI` on the named
@@ -132,19 +135,26 @@ def historyToken (p : IProg) (evs : List Event) (k : Nat) : String :=
   | some (.setParam _ _) => "s"
   | none => "?"
 
+/-- the answer of `effects` / `effects-loop` for program `p` -/
+def effectsAnswer (p : Prog) : String :=
+  let o := call demoSem p demoIn
+  let w := if o.writes.isEmpty then "-" else ",".intercalate (o.writes.map showAttr)
+  let sg := match retSharesAttr demoSem .grid p demoIn with
+    | some b => showBool b | none => "-"
+  let showTouch : Touch → String
+    | .copyInput => "copy" | .wrapInput => "wrap" | .write a => showAttr a
+  let t := if o.touches.isEmpty then "-" else ",".intercalate (o.touches.map showTouch)
+  s!"ok safe={showBool (safe p)} retIsInput={showBool o.retIsInput} retShares={showBool o.retSharesBuf} writes={w} safeGrid={showBool (safeAttr .grid p)} safeStokes={showBool (safeAttr .stokes p)} retSharesGrid={sg} touches={t} created={o.created}"
+
 def step (st : St) : List String → St × String
   | ["effects", name] =>
     match HcipyVerif.Elements.programByName name with
-    | some p =>
-      let o := call demoSem p demoIn
-      let w := if o.writes.isEmpty then "-" else ",".intercalate (o.writes.map showAttr)
-      let sg := match retSharesAttr demoSem .grid p demoIn with
-        | some b => showBool b | none => "-"
-      let showTouch : Touch → String
-        | .copyInput => "copy" | .wrapInput => "wrap" | .write a => showAttr a
-      let t := if o.touches.isEmpty then "-" else ",".intercalate (o.touches.map showTouch)
-      (st, s!"ok safe={showBool (safe p)} retIsInput={showBool o.retIsInput} retShares={showBool o.retSharesBuf} writes={w} safeGrid={showBool (safeAttr .grid p)} safeStokes={showBool (safeAttr .stokes p)} retSharesGrid={sg} touches={t} created={o.created}")
+    | some p => (st, effectsAnswer p)
     | none => (st, "bad-op")
+  | ["effects-loop", name, n] =>
+    match HcipyVerif.Elements.loopProgramByName name, parseNat? n with
+    | some L, some n => (st, effectsAnswer (L.unroll n))
+    | _, _ => (st, "bad-op")
   | ["internal", name] =>
     match HcipyVerif.Elements.internalByName name with
     | some (p, memo, scratch) =>
